@@ -24,6 +24,9 @@ MODES = {
     'no-backup': ['--no-backup', NAME],
     'replace-no-backup': ['--replace', '--no-backup', NAME],
     'f-o-same': ['-f', NAME, '-o', NAME],
+    # the same file under another spelling of its path (find(1) style)
+    'replace-dotslash': ['--replace', './' + NAME],
+    'no-backup-dotslash': ['--no-backup', './' + NAME],
 }
 CFG = "indent_columns=4\nindent_with_tabs=0\nnl_end_of_file=force\nnl_end_of_file_min=1\nnl_max=2\n"
 
